@@ -112,3 +112,9 @@ package main
 //@   loop 2: invariant forall b int :: 0 <= b && b < $i && srv.ReadOnly ==> srv.mounts[b].ReadOnly
 //@   loop 3: invariant bal == old(bal) && roDone(bal, $i1 - 1) && roKept(0) && srv == mapat(bal.KeepServices, $i1 - 1) && 0 < $i1 && $i1 <= len(bal.KeepServices)
 //@   loop 3: invariant forall b int :: 0 <= b && b < $i2 && srv.ReadOnly ==> srv.mounts[b].ReadOnly
+
+// GetCurrentState collects failures of its index/collection goroutines through
+// non-blocking sends on `errs` and decides by len(errs) at the end: the channel
+// must be able to hold a report while nobody is receiving.
+//@ func Balancer.GetCurrentState property C05,C06 safety -bounds,-nil,-makeslice
+//@   at assign errs#1: assert cap(errs) >= 1
